@@ -30,6 +30,9 @@ meta = {
   "detected": any(r["exit"] == 1 for r in results.values()),
   "violation_signatures": sorted(set(sigs)),
 }
+dp = os.path.join(d, "disposition.txt")
+if os.path.exists(dp):
+    meta["disposition"] = open(dp).read().strip()
 json.dump(meta, open(os.path.join(d, "meta.json"), "w"), indent=1)
 print("meta.json:", "DETECTED" if meta["detected"] else "MISSED", results)
 PY
